@@ -18,6 +18,10 @@ SRC = {  # id -> (worktree, n)
     # third round (told which first-round mechanisms to avoid)
     "C09-4": ("/tmp/wt3-C09", 1), "C09-5": ("/tmp/wt3-C09", 2), "C06-3": ("/tmp/wt3-C06", 1), "C06-4": ("/tmp/wt3-C06", 2),
     "C02-2": ("/tmp/wt3-C02", 1), "C02-3": ("/tmp/wt3-C02", 2), "C03-4": ("/tmp/wt3-C03", 1), "C03-5": ("/tmp/wt3-C03", 2),
+    # fourth round (after the buffered-type layer of C11 and the two C12 layers were built)
+    "C12-1": ("/tmp/wt4-C12", 1), "C12-2": ("/tmp/wt4-C12", 2), "C12-3": ("/tmp/wt4-C12", 3),
+    "C12-4": ("/tmp/wt4-C12", 4), "C12-5": ("/tmp/wt4-C12", 5),
+    "C11-3": ("/tmp/wt4-C11", 1), "C11-4": ("/tmp/wt4-C11", 2), "C11-5": ("/tmp/wt4-C11", 3),
 }
 RESULTS = json.load(open(os.path.join(os.path.dirname(__file__), "seed_results.json")))
 
@@ -43,7 +47,7 @@ for sid, (wt, n) in SRC.items():
     r = RESULTS.get(sid, {})
     meta = {
         "id": sid,
-        "property": agent.get("property"),
+        "property": agent.get("property") or sid.split("-")[0],
         "summary": agent.get("title") or agent.get("what_it_breaks"),
         "what_it_breaks": agent.get("what_it_breaks"),
         "needs_to_manifest": agent.get("needs_to_manifest"),
